@@ -1,11 +1,299 @@
 (* C19 — DirectionalConvexHull selects the lower-hull vertices and reports signed distances.
-   Statements only; proofs are `exact <lemma>` from Proofs/DCHP.v.  Model: Model/DCH.v. *)
-From Coq Require Import QArith Sorting.Sorted.
-From Verif Require Import ListX DCH DCHP.
+   Statements only; every proof is `exact <lemma>` from Proofs/DCHP.v, DCHSpecP.v, DCHChainP.v.
+   Model: Model/DCH.v.
 
+   Part A: the model of the code after scipy's ConvexHull, over Q.  qhull is an oracle that
+   returns facets (normal, offset, vertex ids); its contract
+     h1  every sample satisfies n.p + b <= 0 for every facet            [contract_h1]
+     h2  the vertices of a kept facet are samples lying on it           [contract_h2]
+     h3  the kept facets' projections cover every sample's position     [contract_h3 / in_footprint]
+   is a hypothesis here and is validated numerically on every run of the check.
+   [hull_distance] is the REPAIRED below/above logic (finding F15: the code as found masks
+   `> 0` instead of `>= -tolerance`; Findings/F15_dch_below_mask.v refutes C19_sign for it).
+
+   Part B: the specification of "lower-hull vertex" over Z, independent of Part A:
+   [below_combo d P i]: a convex combination (integer weights over a common denominator) of
+   the OTHER samples, at the position of sample i, has a target <= y_i;
+   [is_lower_vertex] is its negation.  The check compares selected_idx_ with the executable
+   simplex form [lower_vertices] and, for one hull dimension, with the monotone chain.
+
+   PARTIAL (stated in comments where they belong): Caratheodory's theorem (completeness of
+   the simplex form for 2-3 hull dimensions) and strictness in "selected => lower vertex"
+   are not proved; the contract h1-h3 is validated, not proved of qhull. *)
+From Coq Require Import QArith Sorting.Sorted.
+From Verif Require Import ListX DCH DCHP DCHSpecP DCHChainP DCH1dP.
+
+(* ============================== Part A: the model under the oracle contract ============== *)
+
+(* selected_idx_ is strictly increasing and lists exactly the vertices of the facets whose
+   y-normal is negative *)
+Theorem C19_selected_unique_vertices :
+  forall fs, StronglySorted lt (selected fs) /\
+    forall i, In i (selected fs) <-> exists f, In f (lower_facets fs) /\ In i (fverts f).
+Proof. exact selected_spec. Qed.
+Print Assumptions C19_selected_unique_vertices.
+
+(* no training sample lies below the hull: the "below" branch is not taken and the distance
+   is >= 0 *)
 Theorem C19_no_sample_below :
   forall fs P tol, (0 <= tol)%Q -> forall p,
     contract_h1 fs P -> lower_facets fs <> [] -> In p P ->
     exists dd, hull_distance tol (lower_facets fs) p = Some dd /\ (0 <= dd)%Q.
 Proof. exact no_sample_below. Qed.
 Print Assumptions C19_no_sample_below.
+
+(* every selected sample has distance zero *)
+Theorem C19_selected_zero :
+  forall fs P tol, (0 <= tol)%Q -> forall i,
+    contract_h1 fs P -> contract_h2 fs P -> In i (selected fs) ->
+    exists dd, hull_distance tol (lower_facets fs) (nth i P []) = Some dd /\ (dd == 0)%Q.
+Proof. exact selected_zero. Qed.
+Print Assumptions C19_selected_zero.
+
+(* every unselected sample in general position (w.r.t. the hull: only a facet's vertices lie
+   on its plane) has positive distance *)
+Theorem C19_unselected_positive :
+  forall fs P tol, (0 <= tol)%Q -> forall i,
+    contract_h1 fs P -> contract_gp fs P -> lower_facets fs <> [] ->
+    (i < length P)%nat -> ~ In i (selected fs) ->
+    exists dd, hull_distance tol (lower_facets fs) (nth i P []) = Some dd /\ (0 < dd)%Q.
+Proof. exact unselected_positive. Qed.
+Print Assumptions C19_unselected_positive.
+
+(* the piecewise-linear surface max_f plane_f(x) IS the lower hull of the samples over every
+   covered position: it is attained by a convex combination of samples (the vertices of the
+   covering facet) and no convex combination of samples at x has a smaller target *)
+Theorem C19_surface_is_hull :
+  forall d fs P, wf_dim d fs P -> contract_h1 fs P -> contract_h2 fs P ->
+  forall x s, length x = d -> in_footprint d fs P x -> surface (lower_facets fs) x = Some s ->
+    (exists f lam, In f (lower_facets fs) /\ covers d P f lam x /\
+        (s == qdot lam (map (fun v => nth 0 (nth v P []) 0%Q) (fverts f)))%Q) /\
+    (forall w, is_combo d P w x -> (s <= combo_target P w)%Q).
+Proof. exact surface_is_hull. Qed.
+Print Assumptions C19_surface_is_hull.
+
+(* on or above the surface (and down to tol below it) the distance of a query is the vertical
+   offset y - max_f plane_f(x) *)
+Theorem C19_offset_above :
+  forall lf tol, (forall f, In f lf -> (f_ny f < 0)%Q) ->
+  forall x y s, surface lf x = Some s -> (s - tol <= y)%Q ->
+    exists dd, hull_distance tol lf (y :: x) = Some dd /\ (dd == y - s)%Q.
+Proof. exact offset_above. Qed.
+Print Assumptions C19_offset_above.
+
+(* positive above, negative below, zero on the surface; a query below the surface by more
+   than the tolerance is reported below by more than the tolerance *)
+Theorem C19_sign :
+  forall lf tol, (forall f, In f lf -> (f_ny f < 0)%Q) ->
+  forall x y s dd, (0 <= tol)%Q -> surface lf x = Some s ->
+    hull_distance tol lf (y :: x) = Some dd ->
+    ((0 < dd)%Q <-> (s < y)%Q) /\ ((dd < 0)%Q <-> (y < s)%Q) /\ ((dd == 0)%Q <-> (y == s)%Q) /\
+    ((y < s - tol)%Q -> (dd < - tol)%Q).
+Proof. exact distance_sign. Qed.
+Print Assumptions C19_sign.
+
+(* "lower vertex => selected" under the contract: an unselected sample has a convex
+   combination of OTHER samples (vertices of the covering facet, none of them i) at its
+   position with a target <= its own *)
+Theorem C19_unselected_not_lower :
+  forall d fs P, wf_dim d fs P -> contract_h1 fs P -> contract_h2 fs P ->
+  forall i, contract_h3 d fs P -> (i < length P)%nat -> ~ In i (selected fs) ->
+    exists f lam, In f (lower_facets fs) /\ covers d P f lam (tl (nth i P [])) /\
+      ~ In i (fverts f) /\
+      (qdot lam (map (fun v => nth 0 (nth v P []) 0) (fverts f)) <= nth 0 (nth i P []) 0)%Q.
+Proof. exact unselected_not_lower. Qed.
+Print Assumptions C19_unselected_not_lower.
+
+(* "selected => lower vertex", PARTIAL: proved with <= and over combinations of ALL samples
+   (the sample lies on the lower hull).  Full statement, not proved: in general position the
+   target of every convex combination of the OTHER samples at that position is strictly
+   larger (needs: the other samples on the facet's plane are its other vertices, whose
+   projections do not contain x_i in their hull). *)
+Theorem C19_selected_lower_partial :
+  forall d fs P, wf_dim d fs P -> contract_h1 fs P -> contract_h2 fs P ->
+  forall i w, In i (selected fs) -> is_combo d P w (tl (nth i P [])) ->
+    (nth 0 (nth i P []) 0 <= combo_target P w)%Q.
+Proof. exact selected_on_surface. Qed.
+Print Assumptions C19_selected_lower_partial.
+
+(* positive affine change of the target y -> a*y + c (a > 0): the hull's facets become
+   [taffine a c f] (up to qhull's normalisation, see C19_facet_scaling); they satisfy the
+   contract for the transformed samples, the selection is unchanged, distances scale by a *)
+Theorem C19_affine_target_contract :
+  forall a, (0 < a)%Q -> forall c fs P, (forall p, In p P -> p <> []) ->
+    contract_h1 fs P -> contract_h2 fs P ->
+    contract_h1 (map (taffine a c) fs) (map (paffine a c) P) /\
+    contract_h2 (map (taffine a c) fs) (map (paffine a c) P).
+Proof. exact contract_taffine. Qed.
+Print Assumptions C19_affine_target_contract.
+
+Theorem C19_affine_target_selection :
+  forall a, (0 < a)%Q -> forall c fs, selected (map (taffine a c) fs) = selected fs.
+Proof. exact selected_taffine. Qed.
+Print Assumptions C19_affine_target_selection.
+
+Theorem C19_affine_target_distance :
+  forall a, (0 < a)%Q -> forall c tol lf y x, (forall f, In f lf -> ~ (f_ny f == 0)%Q) ->
+    orel a (hull_distance tol lf (y :: x))
+           (hull_distance (a * tol) (map (taffine a c) lf) ((a * y + c)%Q :: x)).
+Proof. exact hull_distance_taffine. Qed.
+Print Assumptions C19_affine_target_distance.
+
+(* the normalisation of a facet's equation does not matter (also used by the check, which
+   passes each observed equation multiplied by a power of two) *)
+Theorem C19_facet_scaling :
+  forall k f p, (0 < k)%Q ->
+    is_lower (fscale k f) = is_lower f /\ (gval (fscale k f) p == k * gval f p)%Q /\
+    (~ (f_ny f == 0)%Q -> (ddist (fscale k f) p == ddist f p)%Q).
+Proof. exact fscale_invariant. Qed.
+Print Assumptions C19_facet_scaling.
+
+(* score_feature_matrix: zero residual wherever the interpolant (oracle) reproduces the
+   high-dimensional features, which is its contract at the selected samples *)
+Theorem C19_feature_residual_zero :
+  forall interp low high x,
+    Forall2 Qeq (interp (select 0%Q low x)) (select 0%Q high x) ->
+    score_feature_matrix interp low high [x]
+      = [map2 Qminus (select 0%Q high x) (interp (select 0%Q low x))] /\
+    Forall (fun r => (r == 0)%Q) (map2 Qminus (select 0%Q high x) (interp (select 0%Q low x))).
+Proof. exact sfm_node_zero. Qed.
+Print Assumptions C19_feature_residual_zero.
+
+(* ============================== Part B: the specification over Z ========================== *)
+
+(* positive affine maps of the target do not change which samples are lower vertices *)
+Theorem C19_affine_target_spec :
+  forall d a c P i, 0 < a -> (i < length P)%nat ->
+    (below_combo d (zaffine a c P) i <-> below_combo d P i).
+Proof. exact below_combo_affine. Qed.
+Print Assumptions C19_affine_target_spec.
+
+(* a sample added strictly above the hull is not a lower vertex and does not change the
+   status of any old sample (any number of hull dimensions and samples) *)
+Theorem C19_add_above_new :
+  forall d P q, strictly_above d P q -> below_combo d (P ++ [q]) (length P).
+Proof. exact added_point_not_lower. Qed.
+Print Assumptions C19_add_above_new.
+
+Theorem C19_add_above_old :
+  forall d P q i, (i < length P)%nat -> strictly_above d P q ->
+    (below_combo d (P ++ [q]) i <-> below_combo d P i).
+Proof. exact add_above_invariant. Qed.
+Print Assumptions C19_add_above_old.
+
+(* soundness of the executable simplex test, 1..3 hull dimensions, any number of samples:
+   PARTIAL.  Proved: lower_vertex_b = false => not a lower vertex.  Not proved (Caratheodory's
+   theorem): lower_vertex_b = true => is_lower_vertex, for 2 and 3 hull dimensions; for one
+   hull dimension the converse is C19_chain_1d_complete below. *)
+Theorem C19_simplex_sound_partial :
+  forall d P i, (1 <= d <= 3)%nat -> (forall p, In p P -> length p = S d) -> (i < length P)%nat ->
+    not_lower_b d P i = true -> below_combo d P i.
+Proof. exact not_lower_b_sound. Qed.
+Print Assumptions C19_simplex_sound_partial.
+
+(* one hull dimension: the monotone chain over points sorted by x returns exactly the points
+   that do not lie on or above a segment between two other points straddling them, in order *)
+Theorem C19_chain_1d :
+  forall pts, sorted_x pts = true -> chain pts = filter (lower_1d_b pts) pts.
+Proof. exact chain_is_lower_hull. Qed.
+Print Assumptions C19_chain_1d.
+
+Theorem C19_chain_1d_spec :
+  forall pts, StronglySorted xlt pts ->
+    StronglySorted xlt (chain pts) /\
+    (forall q, In q (chain pts) -> In q pts) /\
+    (forall q, In q pts -> ~ In q (chain pts) -> not_lower_1d pts q) /\
+    (forall h, In h (chain pts) -> ~ not_lower_1d pts h).
+Proof. exact chain_spec. Qed.
+Print Assumptions C19_chain_1d_spec.
+
+(* one hull dimension, COMPLETE: for distinct positions the pair form is equivalent to the
+   convex-combination specification (Caratheodory in dimension 1), so the chain's result is
+   exactly the set of lower vertices *)
+Theorem C19_lower_vertex_1d :
+  forall P i, (forall p, In p P -> length p = 2%nat) -> (i < length P)%nat ->
+    (forall j, (j < length P)%nat -> j <> i -> nth 1 (nth j P []) 0 <> nth 1 (nth i P []) 0) ->
+    (below_combo 1 P i <-> not_lower_1d (map pt1 P) (pt1 (nth i P []))).
+Proof. exact below_combo_1d. Qed.
+Print Assumptions C19_lower_vertex_1d.
+
+Theorem C19_chain_1d_complete :
+  forall P pts i, (forall p, In p P -> length p = 2%nat) -> (i < length P)%nat ->
+    (forall j, (j < length P)%nat -> j <> i -> nth 1 (nth j P []) 0 <> nth 1 (nth i P []) 0) ->
+    sorted_x pts = true -> (forall q, In q pts <-> In q (map pt1 P)) ->
+    (In (pt1 (nth i P [])) (chain pts) <-> is_lower_vertex 1 P i).
+Proof. exact chain_1d_complete. Qed.
+Print Assumptions C19_chain_1d_complete.
+
+(* ============================== non-vacuity ================================================= *)
+(* hull of (x,y) = (-1,1), (0,0), (1,1), (0,2): two lower facets, two upper facets; sample 3 is
+   unselected, 2 above the surface.  The contract h1, h2, h3 and general position hold. *)
+Definition ex_fs : list facet :=
+  [mkFacet [-1; -1]%Q 0%Q [0; 1]%nat; mkFacet [-1; 1]%Q 0%Q [1; 2]%nat;
+   mkFacet [1; -1]%Q (-2)%Q [0; 3]%nat; mkFacet [1; 1]%Q (-2)%Q [3; 2]%nat].
+Definition ex_P : list (list Q) := [[1; -1]; [0; 0]; [1; 1]; [2; 0]]%Q.
+Definition ex_PZ : list (list Z) := [[1; -1]; [0; 0]; [1; 1]; [2; 0]].
+
+Example C19_nonvacuous_contract :
+  wf_dim 1 ex_fs ex_P /\ contract_h1 ex_fs ex_P /\ contract_h2 ex_fs ex_P /\
+  contract_h3 1 ex_fs ex_P /\ contract_gp ex_fs ex_P /\
+  selected ex_fs = [0; 1; 2]%nat /\
+  (exists dd, hull_distance (1 # 1000000000000) (lower_facets ex_fs) (nth 3 ex_P []) = Some dd /\ (dd == 2)%Q) /\
+  (exists dd, hull_distance (1 # 1000000000000) (lower_facets ex_fs) [- (1 # 2); 1 # 2]%Q = Some dd /\ (dd == -1)%Q) /\
+  surface (lower_facets ex_fs) [1 # 2]%Q = Some (1 # 2)%Q.
+Proof.
+  split; [|split; [|split; [|split; [|split; [|split; [|split; [|split]]]]]]].
+  - split.
+    + intros f Hf. cbn in Hf. destruct Hf as [<-|[<-|[<-|[<-|[]]]]]; reflexivity.
+    + intros p Hp. cbn in Hp. destruct Hp as [<-|[<-|[<-|[<-|[]]]]]; reflexivity.
+  - intros f p Hf Hp. cbn in Hf, Hp.
+    destruct Hf as [<-|[<-|[<-|[<-|[]]]]]; destruct Hp as [<-|[<-|[<-|[<-|[]]]]]; vm_compute; discriminate.
+  - intros f v Hf Hv. cbn in Hf.
+    destruct Hf as [<-|[<-|[]]]; cbn in Hv; destruct Hv as [<-|[<-|[]]]; split; vm_compute;
+      try reflexivity; repeat constructor.
+  - intros p Hp. cbn in Hp.
+    assert (Hf0 : In (mkFacet [-1; -1]%Q 0%Q [0; 1]%nat) (lower_facets ex_fs)) by (vm_compute; auto).
+    assert (Hf1 : In (mkFacet [-1; 1]%Q 0%Q [1; 2]%nat) (lower_facets ex_fs)) by (vm_compute; auto).
+    destruct Hp as [<-|[<-|[<-|[<-|[]]]]].
+    + exists (mkFacet [-1; -1]%Q 0%Q [0; 1]%nat), [1; 0]%Q. split; [exact Hf0|].
+      split; [reflexivity|]. split; [intros l [<-|[<-|[]]]; vm_compute; discriminate|].
+      split; [vm_compute; reflexivity|]. intros c Hc. assert (c = 0)%nat as -> by lia. vm_compute. reflexivity.
+    + exists (mkFacet [-1; -1]%Q 0%Q [0; 1]%nat), [0; 1]%Q. split; [exact Hf0|].
+      split; [reflexivity|]. split; [intros l [<-|[<-|[]]]; vm_compute; discriminate|].
+      split; [vm_compute; reflexivity|]. intros c Hc. assert (c = 0)%nat as -> by lia. vm_compute. reflexivity.
+    + exists (mkFacet [-1; 1]%Q 0%Q [1; 2]%nat), [0; 1]%Q. split; [exact Hf1|].
+      split; [reflexivity|]. split; [intros l [<-|[<-|[]]]; vm_compute; discriminate|].
+      split; [vm_compute; reflexivity|]. intros c Hc. assert (c = 0)%nat as -> by lia. vm_compute. reflexivity.
+    + exists (mkFacet [-1; -1]%Q 0%Q [0; 1]%nat), [0; 1]%Q. split; [exact Hf0|].
+      split; [reflexivity|]. split; [intros l [<-|[<-|[]]]; vm_compute; discriminate|].
+      split; [vm_compute; reflexivity|]. intros c Hc. assert (c = 0)%nat as -> by lia. vm_compute. reflexivity.
+  - intros f i Hf Hi Hg. cbn in Hf, Hi.
+    destruct Hf as [<-|[<-|[]]];
+      (destruct i as [|[|[|[|i]]]]; [| | | |lia]); cbn [fverts]; vm_compute in Hg; try discriminate; cbn; auto.
+  - vm_compute. reflexivity.
+  - eexists. split; vm_compute; reflexivity.
+  - eexists. split; vm_compute; reflexivity.
+  - vm_compute. reflexivity.
+Qed.
+
+(* the specification on the same samples: exactly 0, 1, 2 are lower vertices (simplex form and
+   chain agree), sample 3 has a witness combination, sample 1 provably has none *)
+Example C19_nonvacuous_spec :
+  lower_vertices 1 ex_PZ = [0; 1; 2]%nat /\
+  chain [(-1, 1); (0, 0); (1, 1)] = [(-1, 1); (0, 0); (1, 1)] /\
+  chain [(-1, 1); (0, 2); (1, 1)] = [(-1, 1); (1, 1)] /\
+  below_combo 1 ex_PZ 3 /\ is_lower_vertex 1 ex_PZ 1 /\
+  strictly_above 1 [[1; -1]; [0; 0]; [1; 1]] [2; 0].
+Proof.
+  split; [vm_compute; reflexivity|]. split; [vm_compute; reflexivity|]. split; [vm_compute; reflexivity|].
+  split; [|split].
+  - apply not_lower_b_sound; [lia| |cbn; lia|vm_compute; reflexivity].
+    intros p Hp. cbn in Hp. destruct Hp as [<-|[<-|[<-|[<-|[]]]]]; reflexivity.
+  - intros (w & W & HW & Hl & Hn & Hz & Hs & Hx & Hy).
+    destruct w as [|w0 [|w1 [|w2 [|w3 [|]]]]]; try discriminate.
+    pose proof (Hn 0%nat) as N0. pose proof (Hn 2%nat) as N2. pose proof (Hn 3%nat) as N3.
+    specialize (Hx 1%nat ltac:(lia)). cbn in *. unfold zsum, dot in *. cbn in *. lia.
+  - exists [0; 1; 0], 1. split; [lia|]. split; [reflexivity|].
+    split; [intros [|[|[|[|j]]]]; cbn; lia|]. split; [reflexivity|].
+    split; [intros c Hc; assert (c = 1)%nat as -> by lia; reflexivity|]. vm_compute. reflexivity.
+Qed.
